@@ -484,6 +484,12 @@ def decodeMeta (data : Bytes) : Except String Meta :=
         | some strs =>
           if strs.all utf8Valid then .ok ⟨strs, sorted⟩ else .error "utf8"
 
+/-- MIRROR value.go:74-76 `Float` + encoding.go:81 `math.Float32bits(float32(v.f64))`: a float32 is kept
+    as float64 inside `variant.Value`; widening and narrowing again keeps every bit pattern except that
+    the conversion instructions (amd64 CVTSS2SD, arm64 FCVT) set the quiet bit of a signalling NaN. -/
+def goFloat32Image (x : BitVec 32) : BitVec 32 :=
+  if x &&& 0x7f800000#32 = 0x7f800000#32 ∧ x &&& 0x007fffff#32 ≠ 0#32 then x ||| 0x00400000#32 else x
+
 /-! ## key-sorted normal form, depth, well-formedness -/
 
 mutual
